@@ -45,6 +45,9 @@ def c01(quick):
         S.append((D(mode=mode, nj=2, pre=2, bs=3, calls=[dict(n=10)]), "random", rnd))
         S.append((D(mode=mode, nj=2, pre="all", bs="auto", bsizes=[1, 3], calls=[dict(n=9)]), "random", rnd))
         S.append((D(mode=mode, nj=2, pre=3, bs=1, managed=True, calls=[dict(n=4), dict(n=3)]), "random", rnd))
+        # progress messages on (they read the dispatch counters and the input's state from callbacks and from the caller)
+        S.append((D(mode=mode, nj=2, pre="2*n_jobs", bs=2, verbose=11, calls=[dict(n=9), dict(n=3)]), "random", max(30, rnd // 3)))
+        S.append((D(mode=mode, nj=2, pre="all", bs=1, verbose=60, calls=[dict(n=5)]), "random", max(30, rnd // 3)))
     # the object is called again while an earlier output generator is alive but no longer running (all its tasks are done,
     # some results not yet taken), or after that generator was closed: the new call yields exactly its own values
     S.append((D(mode=GEN, nj=2, pre="all", bs=1, calls=[dict(n=4, cons="free"), dict(n=3)]), "random", rnd))
@@ -93,6 +96,7 @@ def c09(quick):
             for bs in ((1, 2) if quick else (1, 2, 3)):
                 S.append((D(mode=mode, nj=2, pre=pre, bs=bs, calls=[dict(n=14)]), "random", rnd))
         S.append((D(mode=mode, nj=3, pre="2*n_jobs", bs="auto", bsizes=[1, 2, 4], calls=[dict(n=30)]), "random", rnd))
+        S.append((D(mode=mode, nj=2, pre=3, bs=1, verbose=11, calls=[dict(n=12, fail=(4,)), dict(n=2)]), "random", max(30, rnd // 3)))
         # fewer pre-dispatched tasks than workers (the user asked for LESS look-ahead than one task per worker)
         for nj, pre in ((2, 1), (3, 1), (3, 2), (4, "0.5*n_jobs")):
             S.append((D(mode=mode, nj=nj, pre=pre, bs=1, calls=[dict(n=7)]), "random", max(30, rnd // 4)))
@@ -128,6 +132,7 @@ def c16(quick):
         S.append((D(mode=mode, nj=2, pre=4, bs=1, inline=True, calls=[dict(n=6, cons="free")]), "random", rnd))
         S.append((D(mode=mode, nj=2, pre=2, bs=1, calls=[dict(n=4)]), "dfs", lim))
         S.append((D(mode=mode, nj=2, pre=2, bs=1, managed="per_call", calls=[dict(n=4, cons="leave"), dict(n=3, cons="leave"), dict(n=2)]), "dfs", lim))
+        S.append((D(mode=mode, nj=2, pre=3, bs=1, verbose=11, calls=[dict(n=6, cons="free"), dict(n=3)]), "random", max(30, rnd // 3)))
         # a timeout is set and never reached by any single wait, although the whole run lasts much longer
         S.append((D(mode=mode, nj=2, pre=4, bs=1, timeout=0.04, calls=[dict(n=12), dict(n=3)]), "random", rnd))
         S.append((D(mode=mode, nj=2, pre="all", bs=1, timeout=0.03, calls=[dict(n=9)]), "random", rnd))
